@@ -1,0 +1,26 @@
+//go:build verif
+
+// Contracts for the gocv verifier (comment-only file; see /verif/DESIGN.md §4).
+package upstream
+
+//@ import transport "github.com/IrineSistiana/mosdns/v5/pkg/upstream/transport"
+
+// TC is bit 1 of the third header byte (RFC 1035 §4.1.1: QR Opcode AA TC RD).
+//@ spec func tcbit(b []byte) bool = (b[2] / 2) % 2 == 1
+
+//@ func msgTruncated [C17]
+//@   requires len(b) >= 3
+//@   ensures result == tcbit(b)
+
+//@ type udpWithFallback
+//@   immutable u, t
+
+//@ func (u *udpWithFallback) ExchangeContext [C17]
+//@   requires u != nil && u.u != nil && u.t != nil
+//@   modifies *
+//@   ensures calls(pipelineExchange) == 1 && arg(pipelineExchange, 0, 0) == u.u && arg(pipelineExchange, 0, 2) == q
+//@   ensures ret(pipelineExchange, 0, 1) != nil ==> result_0 == nil && result_1 == ret(pipelineExchange, 0, 1) && calls(reuseExchange) == 0
+//@   ensures ret(pipelineExchange, 0, 1) == nil && !aftercall(pipelineExchange, 0, tcbit(*ret(pipelineExchange, 0, 0))) ==> result_0 == ret(pipelineExchange, 0, 0) && result_1 == nil && calls(reuseExchange) == 0 && calls(ReleaseBuf) == 0
+//@   ensures ret(pipelineExchange, 0, 1) == nil && aftercall(pipelineExchange, 0, tcbit(*ret(pipelineExchange, 0, 0))) ==> calls(reuseExchange) == 1 && calls(ReleaseBuf) == 1
+//@   ensures calls(reuseExchange) == 1 ==> arg(reuseExchange, 0, 0) == u.t && arg(reuseExchange, 0, 2) == q && result_0 == ret(reuseExchange, 0, 0) && result_1 == ret(reuseExchange, 0, 1)
+//@   ensures calls(ReleaseBuf) == 1 ==> arg(ReleaseBuf, 0, 0) == ret(pipelineExchange, 0, 0)
